@@ -206,16 +206,17 @@ static const PmcConfig CFG[] = {
     {"s:W,W|N|N",    2, {1,2}, {0,0}, {0,0}, {0,0}, ""},
     {"m:pW,pN,ppi0", 3, {0,0}, {0,0}, {0,0}, {0,0}, "one vCPU: an interrupt lands on a waiter before / after it was notified (every arrival order)"},
     {"m:pW,pW,pA,ppi0i1", 3, {0,0}, {0,0}, {0,0}, {0,0}, ""},
-    {"m:gen3x1",     3, {0,0}, {0,0}, {0,0}, {0,0}, "generated: every 3-thread program with one op each from {W,T,N,A,h,n,a,u}, every arrival order"},
-    {"s:gen3x1",     3, {0,0}, {0,0}, {0,0}, {0,0}, ""},
-    {"m:gen4x1",     2, {0,0}, {0,0}, {0,0}, {0,0}, ""},
-    {"s:gen4x1",     2, {0,0}, {0,0}, {0,0}, {0,0}, ""},
-    {"m:gen3x1:tdev",2, {0,0}, {1,1}, {0,0}, {0,0}, ""},
     {"m:W|N:tso",    3, {1,2}, {0,0}, {1,1}, {2,3}, "x86-TSO store buffers"},
     {"s:W|N:tso",    3, {1,2}, {0,0}, {1,1}, {2,3}, ""},
     {"m:W|N:plain",  3, {1,2}, {0,0}, {0,0}, {0,0}, "plain accesses to the condition variable and mutex objects are scheduling points too"},
     {"m:W,W|N|N:plain", 2, {1,1}, {0,0}, {0,0}, {0,0}, ""},
     {"m:W,W|A:tso",  2, {1,1}, {0,0}, {1,1}, {2,2}, ""},
+    // generated programs last: they take whatever budget the configs above leave
+    {"m:gen3x1",     3, {0,0}, {0,0}, {0,0}, {0,0}, "generated: every 3-thread program with one op each from {W,T,N,A,h,n,a,u}, every arrival order"},
+    {"s:gen3x1",     3, {0,0}, {0,0}, {0,0}, {0,0}, ""},
+    {"m:gen4x1",     2, {0,0}, {0,0}, {0,0}, {0,0}, ""},
+    {"s:gen4x1",     2, {0,0}, {0,0}, {0,0}, {0,0}, ""},
+    {"m:gen3x1:tdev",2, {0,0}, {1,1}, {0,0}, {0,0}, ""},
 };
 const PmcConfig* pmc_configs(int* n) { *n = sizeof CFG / sizeof CFG[0]; return CFG; }
 const char* pmc_property(void) { return "C03"; }
